@@ -120,9 +120,17 @@ def run(prog, cfg, target=None, action='abort', second=None, inline=False,
                                     recs.append(r)))
   result = {}
 
+  conf = {}
+  if cfg.get('cancel_timeout_s') is not None:
+    conf['cancel_timeout_s'] = cfg['cancel_timeout_s']
+
+  @pm._H['CONF'].save_and_restore(**conf)  # pylint: disable=protected-access
+  def go():
+    return t.execute(test_start=b.start)
+
   def main():
     try:
-      result['ret'] = t.execute(test_start=b.start)
+      result['ret'] = go()
     except KeyboardInterrupt:
       result['kbi'] = True
     except BaseException as e:  # pylint: disable=broad-except
@@ -326,6 +334,7 @@ def run(prog, cfg, target=None, action='abort', second=None, inline=False,
       hang = {'same_stacks': s1 == s2 and all_blocked, 'stacks': s2}
       eng.release()
   finally:
+    b.release.set()      # unkillable ('HU') bodies return now
     if old_sig is not None:
       signal.signal(signal.SIGINT, old_sig)
     L['real_main'] = False
